@@ -2,7 +2,7 @@ import QV.Model.Compiler
 import QV.Proofs.Circuit
 import QV.Proofs.Bennett
 import QV.Props.C02
--- PORT-PENDING import QV.Proofs.CompilerClean   (not yet ported to the repaired compiler model, docs/notes/PORT-PENDING.md)
+import QV.Proofs.CompilerClean
 import QV.Model.CompilerClass
 /-!
 # C03 – Compiled circuits are clean: inputs preserved, scratch qubits back to zero
@@ -18,8 +18,10 @@ bit names a qubit of the circuit, so `outs` has one entry per return bit),
 `compile_args_not_scratch` (no argument qubit is in the ancilla / free / marked / kept set) and
 `compile_replay_restores` (reverse replay of any compiled gate list restores every qubit).
 The model follows the compiler with the repairs `docs/fixes/CC-*.diff`.  The semantic theorem
-`C03_fragment_partial` (proved for the model of the unrepaired compiler) is parked in a
-`PORT-PENDING` block until `QV/Proofs/CompilerClean.lean` is ported (`docs/notes/PORT-PENDING.md`).
+`C03_fragment_partial` is proved for that model (`QV/Proofs/CompilerClean.lean`) on the whole class of
+`C02_fragment_partial`: since the repaired `compile_or` applies no `X` gate to an argument qubit the class
+no longer restricts the arity of `Or`, and since the ancillas of a definition that is not a return bit are
+kept until `uncompute_all` it no longer asks for a requested return name.
 -/
 namespace QV.C03
 open QV QV.Compiler
@@ -166,8 +168,8 @@ theorem compile_replay_restores (inputs : List String) (defs : List (String × B
 
 /-! ## Cleanliness on the proved fragment (`QV/Proofs/CompilerClean.lean`) -/
 
-/-- the class of `C03_fragment_partial` asks for at least one requested return name, and every
-requested name is the defined one -/
+/-- in the class of `C03_fragment_partial` every requested return name is the defined one: a non-empty
+return list contains it -/
 theorem mem_rets_of_class {r : String} {rets : List String} (hne : rets.isEmpty = false)
     (hall : ∀ r' ∈ rets, r' = r) : r ∈ rets := by
   cases rets with
@@ -177,15 +179,17 @@ theorem mem_rets_of_class {r : String} {rets : List String} (hne : rets.isEmpty 
     subst this
     exact List.mem_cons_self
 
-/- PORT-PENDING theorem C03_fragment_partial (needs QV.Proofs.CompilerClean (CompilerSem, CompilerReplay, CompilerBennett); text unchanged)
-/-- **C03 on the tree-like single-definition fragment without De Morgan `Or`** (`inCleanFragment`:
-`inFragment`, at least one requested return name, every `Or` with at most two arguments), with
-`uncompute = true`: every successful run of the compiler model – for every admissible sequence of
-ancilla choices – gives a `Clean` circuit: on every classical input every argument qubit is
-unchanged and every qubit other than the qubit of the return name is back to zero.  Partial with
-respect to C03: one definition only, no repeated compound sub-expression, no constant, and no `Or`
-with three or more arguments – for the last restriction the statement is *false* on `inFragment`
-(`C03_fragment_demorgan_witness`). -/
+/-- **C03 on the tree-like single-definition fragment** (`inCleanFragment` = `inFragment`, the class of
+`C02_fragment_partial`: one definition, tree-like expression over the arguments, `Or`s of any arity; the
+return list is any number of copies of the defined name – or empty), with `uncompute = true`: every
+successful run of the compiler model – for every admissible sequence of ancilla choices – gives a `Clean`
+circuit: on every classical input every argument qubit is unchanged and every qubit other than the qubit
+of the return name is back to zero (with no return name requested: every qubit).  Partial with respect to
+C03: one definition only, no repeated compound sub-expression, no constant.  (For the unrepaired compiler
+the class had to exclude every `Or` with three or more arguments and the empty return list,
+`C03_fragment_demorgan_witness`, `C03_fragment_norets_witness`; the repaired `compile_or` folds binary ors
+into new marked ancillas, which the inline `uncompute` replays like every other ancilla, and a definition
+that is not a return bit keeps its ancillas until `uncompute_all`, which then replays every gate.) -/
 theorem C03_fragment_partial (inputs : List String) (defs : List (String × BExp)) (rets : List String)
     (choices : List Nat) (s : CState)
     (hf : inCleanFragment inputs defs rets = true)
@@ -195,26 +199,39 @@ theorem C03_fragment_partial (inputs : List String) (defs : List (String × BExp
   | [(r, e)], hf, h =>
     simp only [inCleanFragment, inFragment, Bool.and_eq_true, decide_eq_true_eq, List.all_eq_true, bne_iff_ne,
       ne_eq, Bool.not_eq_true', beq_iff_eq] at hf
-    obtain ⟨⟨⟨⟨⟨⟨hnd, hfr⟩, hov⟩, htl⟩, hrets⟩, hne⟩, hso⟩ := hf
-    have hr : r ∈ rets := mem_rets_of_class hne hrets
+    obtain ⟨⟨⟨⟨hnd, hfr⟩, hov⟩, htl⟩, hrets⟩ := hf
     intro x hx q hq
-    obtain ⟨q0, hq0, hcl, _, _, htg⟩ := compile_single_clean h rfl hr hnd (fun n hn => hfr n hn) hov htl hso x hx
     dsimp only
-    constructor
-    · intro hlt
-      rw [untargeted_qubit_unchanged _ q _ _, initState_getD]
-      intro g hg hlast
-      have : g.target = q := by unfold AGate.target; rw [hlast]; rfl
-      have := htg g hg
-      omega
-    · intro hge hno
-      have hne' : q ≠ q0 := by
-        rintro rfl
-        exact hno (List.mem_filterMap.mpr ⟨r, hr, hq0⟩)
-      rw [hcl q hne', initState_getD]
-      have : x[q]? = none := by simp; omega
-      simp [List.getD_eq_getElem?_getD, this]
-PORT-PENDING end -/
+    cases hne : rets.isEmpty with
+    | true =>
+      -- no return name requested: `uncompute_all([])` replays every gate
+      have hre : rets = [] := List.isEmpty_iff.mp hne
+      subst hre
+      have hall := compile_single_norets h rfl hnd (fun n hn => hfr n hn) hov htl x hx
+      constructor
+      · intro hlt
+        rw [hall q, initState_getD]
+      · intro hge _
+        rw [hall q, initState_getD]
+        have : x[q]? = none := by simp; omega
+        simp [List.getD_eq_getElem?_getD, this]
+    | false =>
+      have hr : r ∈ rets := mem_rets_of_class hne hrets
+      obtain ⟨q0, hq0, hcl, _, _, htg⟩ := compile_single_clean h rfl hr hnd (fun n hn => hfr n hn) hov htl x hx
+      constructor
+      · intro hlt
+        rw [untargeted_qubit_unchanged _ q _ _, initState_getD]
+        intro g hg hlast
+        have : g.target = q := by unfold AGate.target; rw [hlast]; rfl
+        have := htg g hg
+        omega
+      · intro hge hno
+        have hne' : q ≠ q0 := by
+          rintro rfl
+          exact hno (List.mem_filterMap.mpr ⟨r, hr, hq0⟩)
+        rw [hcl q hne', initState_getD]
+        have : x[q]? = none := by simp; omega
+        simp [List.getD_eq_getElem?_getD, this]
 
 /-- an instance of the class of `C03_fragment_partial` (nested `And` / `Xor` / `Not`, binary `Or`) -/
 example : inCleanFragment ["a", "b", "c"]
@@ -222,16 +239,22 @@ example : inCleanFragment ["a", "b", "c"]
                     .sym "b"])] ["_ret"] = true := by
   decide +kernel
 
+/-- another instance: an `Or` with four arguments, three of them bare argument symbols (or-chain) -/
+example : inCleanFragment ["a", "b", "c", "d"]
+    [("_ret", .xor [.or [.sym "a", .sym "b", .not (.sym "c"), .sym "d"], .and [.sym "a", .sym "d"]])] ["_ret"] = true := by
+  decide +kernel
+
 /-- (about the **unrepaired** compiler; the repaired `compile_or` folds binary ors and applies no `X` to an
-argument qubit.)  The excluded part of `inFragment`: `a & (a | b | c)` is in the class of `C02_fragment_partial` but its
-circuit was **not** clean.  The gate list is the one the unrepaired compiler and its model emitted with
+argument qubit, and `C03_fragment_partial` now covers this instance.)  The part of `inFragment` the class used
+to exclude (`smallOr`): `a & (a | b | c)` is in the class of `C02_fragment_partial` but its circuit was **not** clean.  The gate list is the one the unrepaired compiler and its model emitted with
 ancillas 3, 4 (`anc_0` = the De Morgan `Or`, qubit 4 = `_ret`): `uncompute` replays `X 3` and the `MCX`
 into qubit 3 without the `X` gates on the argument qubits, so on input `000` qubit 3 ends as 1
 (finding `C03-uncompute-stale`, repaired).  (Kernel evaluation of `compile` itself is stuck on `List.mergeSort`,
 so the list is spelled out; `./check C03` compares model and compiler gate lists on such instances.) -/
 theorem C03_fragment_demorgan_witness :
     inFragment ["a", "b", "c"] [("_ret", .and [.sym "a", .or [.sym "a", .sym "b", .sym "c"]])] ["_ret"] = true ∧
-    inCleanFragment ["a", "b", "c"] [("_ret", .and [.sym "a", .or [.sym "a", .sym "b", .sym "c"]])] ["_ret"] = false ∧
+    smallOr (.and [.sym "a", .or [.sym "a", .sym "b", .sym "c"]]) = false ∧
+    inCleanFragment ["a", "b", "c"] [("_ret", .and [.sym "a", .or [.sym "a", .sym "b", .sym "c"]])] ["_ret"] = true ∧
     validateClean [{ cls := .X, wires := [0] }, { cls := .X, wires := [1] }, { cls := .X, wires := [2] },
       { cls := .MCX 3, wires := [0, 1, 2, 3] }, { cls := .X, wires := [0] }, { cls := .X, wires := [1] },
       { cls := .X, wires := [2] }, { cls := .X, wires := [3] }, { cls := .MCX 2, wires := [0, 3, 4] },
@@ -240,13 +263,14 @@ theorem C03_fragment_demorgan_witness :
       { cls := .X, wires := [2] }, { cls := .X, wires := [1] }, { cls := .X, wires := [0] }] 5 3 [4] = false := by
   decide +kernel
 
-/-- (about the **unrepaired** compiler.)  The other excluded part: with no requested return name nothing was kept
-and `uncompute_all` replayed the gate of the result qubit after its control was uncomputed: `(a & b) & c`
-(output of the unrepaired model with ancillas 3, 4) leaves qubit 4 dirty; the repaired compiler keeps the
-ancillas of a definition that is not a return bit until `uncompute_all` -/
+/-- (about the **unrepaired** compiler.)  The other part the class used to exclude: with no requested return name
+nothing was kept and `uncompute_all` replayed the gate of the result qubit after its control was uncomputed:
+`(a & b) & c` (output of the unrepaired model with ancillas 3, 4) leaves qubit 4 dirty; the repaired compiler keeps
+the ancillas of a definition that is not a return bit until `uncompute_all`, and `C03_fragment_partial` now covers
+this instance -/
 theorem C03_fragment_norets_witness :
     inFragment ["a", "b", "c"] [("_ret", .and [.and [.sym "a", .sym "b"], .sym "c"])] [] = true ∧
-    inCleanFragment ["a", "b", "c"] [("_ret", .and [.and [.sym "a", .sym "b"], .sym "c"])] [] = false ∧
+    inCleanFragment ["a", "b", "c"] [("_ret", .and [.and [.sym "a", .sym "b"], .sym "c"])] [] = true ∧
     validateClean [{ cls := .MCX 2, wires := [0, 1, 3] }, { cls := .MCX 2, wires := [2, 3, 4] },
       { cls := .MCX 2, wires := [0, 1, 3] }, { cls := .MCX 2, wires := [2, 3, 4] }] 5 3 [] = false := by
   decide +kernel
